@@ -285,6 +285,31 @@ Definition api_unpeer (a b : N) (ca cb : list N) : M (list N * list N) :=
       if some then fail EAmbig else fail ETopology
   end.
 
+(* ---- unpeer as rewritten by proposed_fixes/C08-6 (no path search): the peerings are the pairs (x, y) where x is a
+   ServicePort of a, y a ServicePort across one of x's links, and b is the one service y is connected to; ALL such
+   pairs are removed (each end once, skipping what is already gone); none: "do not peer".  The harness selects this
+   operation instead of OUnpeer when the running library's unpeer no longer calls get_nodes_on_shortest_path. ---- *)
+Definition unpeer_pairs (g : graph) (a b : N) : list (N * N) :=
+  flat_map (fun x =>
+    if N.eqb (type_of g x) T_ServicePort
+    then flat_map (fun y => if N.eqb (type_of g y) T_ServicePort &&
+                               list_eqb8 N.eqb (first_neighbor g y RConnects CNS) [b]
+                            then [(x, y)] else []) (peer_cps g x)
+    else []) (first_neighbor g a RConnects CCP).
+Definition remove_if_there (c : N) : M unit :=
+  there <- m_get (fun g => has_node g c && cls_eqb (class_of g c) CCP) ;;
+  if there then remove_cp_and_links c true else ret tt.
+Definition unpeer6_ends (ps : list (N * N)) : list N := dedup (map fst ps ++ map snd ps).
+Definition api_unpeer6 (a b : N) (ca cb : list N) : M (list N * list N) :=
+  x <- need_node a ;;
+  guard (cls_eqb (ncls x) CNS || cls_eqb (ncls x) CLink) EQuery ;;;
+  ps <- m_get (fun g => unpeer_pairs g a b) ;;
+  match ps with
+  | [] => fail ETopology
+  | _ => for_each_set remove_if_there (unpeer6_ends ps) ;;;
+         ret (filter (fun i => negb (memN i (map fst ps))) ca, filter (fun i => negb (memN i (map snd ps))) cb)
+  end.
+
 (* ---- prune(reservation_state): nmark says "this element's reservation state matches" ---- *)
 Definition ns_interfaces (g : graph) (s : N) : list N := first_neighbor g s RConnects CCP.
 Definition marked (g : graph) (n : N) : bool :=
@@ -325,6 +350,7 @@ Inductive op :=
 | ONodeRemoveNs (n : N) (sname : N)
 | ODisconnect (s : N) (i : N)
 | OUnpeer (a b : N)
+| OUnpeer6 (a b : N)
 | ORemoveInterface (s : N) (iname : N)
 | ORemoveChild (p : N) (iname : N)
 | OPrune.
@@ -343,6 +369,7 @@ Definition exec (experiment : bool) (o : op) (caches : list (list N)) : M (list 
   | ONodeRemoveNs n s => api_node_remove_ns n s ;;; ret caches
   | ODisconnect s i => c <- api_disconnect i c1 ;; ret [c]
   | OUnpeer a b => cc <- api_unpeer a b c1 c2 ;; ret [fst cc; snd cc]
+  | OUnpeer6 a b => cc <- api_unpeer6 a b c1 c2 ;; ret [fst cc; snd cc]
   | ORemoveInterface s i => c <- api_remove_interface experiment s i c1 ;; ret [c]
   | ORemoveChild p i => c <- api_remove_child p i c1 ;; ret [c]
   | OPrune => api_prune ;;; ret caches
